@@ -13,4 +13,15 @@ CHECKS = {
     },
 }
 
+CHECKS['C10'] = {
+    'technique': 'static analysis: wire-type closure from Operation impls, serde-attribute neutrality table over the expanded AST, serializer/deserializer variant-numbering rule, single-codec dataflow rule, register_types completeness',
+    'text': 'Static rule instances over the expanded AST, HIR tables and MIR of the runtime crates (default + all-features) and of two probe apps that instantiate crux\'s proc-macros from the current tree: every serde attribute on a wire type is wire-neutral, Serialize and Deserialize number variants alike, one fixint bincode configuration is used in both directions, and type registration is complete. Necessary conditions for schema/bytes agreement on all values; per-value agreement and the generated foreign code are not decided.',
+    'design_ref': 'DESIGN.md §4 C10',
+}
+CHECKS['C11'] = {
+    'technique': 'static analysis: source-to-sink dataflow from hash-ordered iteration to order-sensitive consumers, ambient-nondeterminism who-may-call scan, field coverage of hand-written equality, interior-mutable statics table',
+    'text': 'Static rule instances over the MIR of all runtime crates: every iteration over a HashMap/HashSet/http_types Headers is followed to its consumer and must be order-insensitive or merely forwarded; no library function consults clocks, rand, thread identity, env or addresses; hand-written equality reads every field; process-wide mutable state is exactly the tabled statics. Necessary conditions for replay determinism over all histories; byte-identical replay itself and third-party determinism are not decided.',
+    'design_ref': 'DESIGN.md §4 C11',
+}
+
 PENDING_REASON = 'check not yet armed in this framework (static rules designed in DESIGN.md §4; implementation in progress)'
